@@ -3,6 +3,7 @@ Implementation (valjean.gavroche.stat_tests.bonferroni) vs Coq model
 C06/Model.v, plus the property oracle (plain Python floats as ground truth).'''
 import json
 import math
+import time
 
 import numpy as np
 
@@ -357,6 +358,7 @@ def run(ctx):
                 'unflagged bins under Holm-Bonferroni; distinct by case content')
     cases = gen_cases(ctx)
     done = []
+    t_start = time.time()
     for case in cases:
         obs = run_impl(case)
         oracle(ctx, case, obs)
@@ -384,7 +386,10 @@ def run(ctx):
                       + '.\nEval vm_compute in bad_indices (map check_case cases).\n'
                       + 'Eval vm_compute in bad_indices (map (fun c => levels_ok (of_bits (fst c)) (snd c)) '
                       + clist(['(' + cz(a) + ', ' + cn(m) + ')' for a, m in sizes[:40]]) + ').')
+    ctx.extra['impl_and_oracle_s'] = round(time.time() - t_start, 1)
+    t_start = time.time()
     outs = common.coq_eval(ctx.pid, IMPORTS, bodies)
+    ctx.extra['model_eval_s'] = round(time.time() - t_start, 1)
     for chunk, out in zip(shards, outs):
         blocks = common.parse_eval_blocks(out)
         for i in common.parse_nat_list('= ' + blocks[0]):
